@@ -1526,6 +1526,22 @@ def _abs(it, args, kwargs):
     return abs(v)
 
 
+def _round(it, args, kwargs):
+    """builtin round(x) of a symbolic real (no ndigits): the nearest integer, ties to even (contract of CPython's float.__round__)."""
+    if len(args) == 1 and not kwargs and isinstance(args[0], Sym) and args[0].kind in ("real", "int"):
+        v = args[0]
+        if v.kind == "int":
+            return v
+        r = it.w.fresh("round", "int")
+        rr = z3.ToReal(r.e)
+        it.p.pc.append(z3.And(rr - v.e <= 0.5, v.e - rr <= 0.5))
+        it.p.pc.append(z3.Implies(z3.Or(rr - v.e == 0.5, v.e - rr == 0.5), r.e % 2 == 0))
+        return r
+    if any(isinstance(a, Sym) for a in args):
+        return it.w.uf("round", list(args), "val")
+    return round(*args, **kwargs)
+
+
 def _range(it, args, kwargs):
     if len(args) == 1 and isinstance(args[0], Sym) and args[0].kind == "int":
         return SymRange(args[0].e)
@@ -1652,7 +1668,7 @@ _BUILTINS = {
     "str": Builtin("str", lambda it, a, k: (str(a[0]) if isinstance(a[0], (int, float, str, np.generic)) else __import__("pycv.wp.symstr", fromlist=["SStr"]).SStr([__import__("pycv.wp.symstr", fromlist=["Tok"]).Tok(a[0])]) if isinstance(a[0], Sym) else _generic("str")(it, a, k))), "bool": Builtin("bool", _generic("bool", "bool")),
     "list": Builtin("list", _list), "tuple": Builtin("tuple", _tuple), "zip": Builtin("zip", _zip),
     "enumerate": Builtin("enumerate", _enumerate), "print": Builtin("print", _print), "dict": Builtin("dict", _generic("dict")),
-    "round": Builtin("round", _generic("round")), "any": Builtin("any", _generic("any", "bool")),
+    "round": Builtin("round", _round), "any": Builtin("any", _generic("any", "bool")),
     "all": Builtin("all", _generic("all", "bool")), "complex": Builtin("complex", _generic("complex")),
     "repr": Builtin("repr", _generic("repr")), "type": Builtin("type", _generic("type")),
     "id": Builtin("id", _generic("id")), "iter": Builtin("iter", _generic("iter")), "next": Builtin("next", _generic("next")),
